@@ -22,6 +22,11 @@
 //! `strat=random` (`SelectionStrategy::Random`, cargo feature `random` of the crate, on in this build): the result of
 //! every `get_healthy` / `get_usable` is reported as the observed choice `@pick=<resource>|none`; the model accepts
 //! exactly the eligible resources.
+//! Several wrappers (header `wrappers=<k>`, default 1): k wrappers over k scripted checkers of their own, every one with the
+//! header's configuration and `n` resources. With `via=cfg` they are all built with `with_config(cfg.clone())` from ONE
+//! `HealthCheckConfig` value (`share=0`: from a config value built separately for each). Every `manual` / `probe` op takes
+//! `w=<j>` (default 0; j >= k: `noop`); every log line of wrapper j > 0 is prefixed `w<j> `, its resources are named
+//! `w<j>r<i>`, its completions are reported as `@o=<j>.<serial>` (serials count per wrapper).
 use crate::world::*;
 use std::collections::VecDeque;
 use std::future::Future;
@@ -67,9 +72,29 @@ struct Scripts {
 
 pub struct Checker {
     scripts: Arc<Mutex<Scripts>>,
+    tag: usize,
+}
+
+/// a log line of wrapper `tag`: wrapper 0 as ever, the others prefixed `w<tag> `
+fn wlog(tag: usize, s: String) {
+    if tag == 0 {
+        log(s)
+    } else {
+        log(format!("w{} {}", tag, s))
+    }
+}
+
+/// an observed completion of wrapper `tag`
+fn wobs(tag: usize, k: u64) {
+    if tag == 0 {
+        obs("o", k)
+    } else {
+        obs("o", format!("{}.{}", tag, k))
+    }
 }
 
 pub struct CheckFut {
+    tag: usize,
     r: usize,
     k: u64,
     sym: char,
@@ -89,8 +114,8 @@ impl Future for CheckFut {
             }
         }
         self.done = true;
-        obs("o", self.k);
-        log(format!("check_done {} {} {}", self.r, self.sym, self.k));
+        wobs(self.tag, self.k);
+        wlog(self.tag, format!("check_done {} {} {}", self.r, self.sym, self.k));
         Poll::Ready(match self.sym {
             'h' => HealthStatus::Healthy,
             'd' => HealthStatus::Degraded,
@@ -103,13 +128,13 @@ impl Future for CheckFut {
 impl Drop for CheckFut {
     fn drop(&mut self) {
         if !self.done {
-            obs("o", self.k);
-            log(format!("check_drop {} {}", self.r, self.k));
+            wobs(self.tag, self.k);
+            wlog(self.tag, format!("check_drop {} {}", self.r, self.k));
         }
     }
 }
 
-fn start_check(scripts: &Arc<Mutex<Scripts>>, r: usize) -> CheckFut {
+fn start_check(scripts: &Arc<Mutex<Scripts>>, tag: usize, r: usize) -> CheckFut {
     let (it, k) = {
         let mut s = scripts.lock().unwrap();
         let d = s.dflt;
@@ -117,19 +142,19 @@ fn start_check(scripts: &Arc<Mutex<Scripts>>, r: usize) -> CheckFut {
         s.next += 1;
         (s.q.get_mut(r).and_then(|q| q.pop_front()).unwrap_or(d), k)
     };
-    log(format!("check_start {} {} {}", r, render_item(&it), k));
+    wlog(tag, format!("check_start {} {} {}", r, render_item(&it), k));
     // latency counts from the call of `check()`: the Sleep is created here
     let sleep = if it.sym != 's' && it.lat > 0 {
         Some(Box::pin(tokio::time::sleep(Duration::from_millis(it.lat))))
     } else {
         None
     };
-    CheckFut { r, k, sym: it.sym, sleep, done: false }
+    CheckFut { tag, r, k, sym: it.sym, sleep, done: false }
 }
 
 impl HealthChecker<usize> for Checker {
     fn check(&self, r: &usize) -> impl Future<Output = HealthStatus> + Send {
-        start_check(&self.scripts, *r)
+        start_check(&self.scripts, self.tag, *r)
     }
 }
 
@@ -143,8 +168,8 @@ enum W {
 
 /// the same expression on whichever wrapper type the case was built with
 macro_rules! on_w {
-    ($self:expr, $w:ident => $e:expr) => {
-        match &$self.wrapper {
+    ($wr:expr, $w:ident => $e:expr) => {
+        match $wr {
             W::S($w) => $e,
             W::F($w) => $e,
         }
@@ -152,10 +177,12 @@ macro_rules! on_w {
 }
 
 pub struct Adapter {
-    wrapper: W,
+    /// the wrappers of the case (`wrappers=<k>`), each with the config value it was built from (when `via=cfg`) and the
+    /// scripts of its own checker
+    wrappers: Vec<W>,
     /// the `HealthCheckConfig` value handed to `with_config` (a clone of it), when that path was taken
-    config: Option<HealthCheckConfig>,
-    scripts: Arc<Mutex<Scripts>>,
+    configs: Vec<Option<HealthCheckConfig>>,
+    scripts: Vec<Arc<Mutex<Scripts>>>,
     n: usize,
     /// `SelectionStrategy::Random`: the result of a selection is the environment's choice, reported as `@pick=`
     random: bool,
@@ -212,9 +239,21 @@ fn st_letter(s: HealthStatus) -> &'static str {
     }
 }
 
-/// resource names are `r<i>`
-fn res_index(name: &str) -> String {
-    name.strip_prefix('r').unwrap_or(name).to_string()
+/// resource names are `r<i>` (wrapper 0) / `w<j>r<i>`
+fn res_name(tag: usize, i: usize) -> String {
+    if tag == 0 {
+        format!("r{}", i)
+    } else {
+        format!("w{}r{}", tag, i)
+    }
+}
+
+/// -> (wrapper, resource index) of a resource name
+fn res_index(name: &str) -> (usize, String) {
+    match name.strip_prefix('w').and_then(|x| x.split_once('r')) {
+        Some((j, i)) => (j.parse().unwrap_or(0), i.to_string()),
+        None => (0, name.strip_prefix('r').unwrap_or(name).to_string()),
+    }
 }
 
 /// `k:v,k:v` with k in iv,delay,to,sth,fth: the wrapper builder's own setters
@@ -257,18 +296,34 @@ fn build_config(kv: &Kv) -> HealthCheckConfig {
     }
     if kv.u64("cb", 0) == 1 {
         c = c
-            .on_health_change(|name, old, new| log(format!("cb_change {} {} {}", res_index(name), st_letter(old), st_letter(new))))
-            .on_check_failed(|name, _err| log(format!("cb_failed {}", res_index(name))));
+            .on_health_change(|name, old, new| {
+                let (j, i) = res_index(name);
+                wlog(j, format!("cb_change {} {} {}", i, st_letter(old), st_letter(new)))
+            })
+            .on_check_failed(|name, _err| {
+                let (j, i) = res_index(name);
+                wlog(j, format!("cb_failed {}", i))
+            });
     }
     c.build()
 }
 
-fn build<C: HealthChecker<usize> + 'static>(kv: &Kv, n: usize, checker: C) -> (HealthCheckWrapper<usize, C>, Option<HealthCheckConfig>) {
+/// `shared`: the ONE config value every wrapper of the case is built from (a clone of it each)
+fn build<C: HealthChecker<usize> + 'static>(
+    kv: &Kv,
+    n: usize,
+    tag: usize,
+    shared: Option<&HealthCheckConfig>,
+    checker: C,
+) -> (HealthCheckWrapper<usize, C>, Option<HealthCheckConfig>) {
     if kv.get("via") == Some("cfg") {
-        let cfg = build_config(kv);
+        let cfg = match shared {
+            Some(c) => c.clone(),
+            None => build_config(kv),
+        };
         let mut b = HealthCheckWrapperBuilder::default().with_checker(checker);
         for i in 0..n {
-            b = b.with_context(i, format!("r{}", i));
+            b = b.with_context(i, res_name(tag, i));
         }
         // setters called before `with_config` are overwritten by it, those called after it override it
         b = apply_setters(b, &kv.str("pre", ""));
@@ -278,7 +333,7 @@ fn build<C: HealthChecker<usize> + 'static>(kv: &Kv, n: usize, checker: C) -> (H
     } else {
         let mut b = HealthCheckWrapper::builder().with_checker(checker);
         for i in 0..n {
-            b = b.with_context(i, format!("r{}", i));
+            b = b.with_context(i, res_name(tag, i));
         }
         let w = b
             .with_interval(Duration::from_millis(kv.u64("iv", 10)))
@@ -297,20 +352,33 @@ impl Adapter {
     pub fn new(kv: &Kv) -> Adapter {
         let n = kv.u64("n", 1) as usize;
         let dflt = parse_item(&kv.str("dflt", "k")).unwrap_or(Item { sym: 'k', lat: 0 });
-        let scripts = Arc::new(Mutex::new(Scripts { q: (0..n).map(|_| VecDeque::new()).collect(), dflt, next: 0 }));
-        let (wrapper, config) = if kv.get("chk") == Some("fn") {
-            let sc = scripts.clone();
-            let f: FnChecker = Box::new(move |r: &usize| start_check(&sc, *r));
-            let (w, c) = build(kv, n, f);
-            (W::F(w), c)
-        } else {
-            let (w, c) = build(kv, n, Checker { scripts: scripts.clone() });
-            (W::S(w), c)
-        };
+        let k = kv.u64("wrappers", 1).max(1) as usize;
+        // one config value for all the wrappers (the usual way of configuring several pools alike), or one each
+        let shared = if kv.get("via") == Some("cfg") && kv.u64("share", 1) != 0 { Some(build_config(kv)) } else { None };
+        let (mut wrappers, mut configs, mut scripts) = (Vec::new(), Vec::new(), Vec::new());
+        for tag in 0..k {
+            let sc = Arc::new(Mutex::new(Scripts { q: (0..n).map(|_| VecDeque::new()).collect(), dflt, next: 0 }));
+            let (wrapper, config) = if kv.get("chk") == Some("fn") {
+                let sc = sc.clone();
+                let f: FnChecker = Box::new(move |r: &usize| start_check(&sc, tag, *r));
+                let (w, c) = build(kv, n, tag, shared.as_ref(), f);
+                (W::F(w), c)
+            } else {
+                let (w, c) = build(kv, n, tag, shared.as_ref(), Checker { scripts: sc.clone(), tag });
+                (W::S(w), c)
+            };
+            wrappers.push(wrapper);
+            configs.push(config);
+            scripts.push(sc);
+        }
         let random = kv.get("strat") == Some("random");
-        let a = Adapter { wrapper, config, scripts, n, random };
-        if kv.u64("start", 1) != 0 && on_w!(a, w => now_or_pending(w.start())).is_none() {
-            log("#start-pending".into());
+        let a = Adapter { wrappers, configs, scripts, n, random };
+        if kv.u64("start", 1) != 0 {
+            for wr in &a.wrappers {
+                if on_w!(wr, w => now_or_pending(w.start())).is_none() {
+                    log("#start-pending".into());
+                }
+            }
         }
         a
     }
@@ -356,28 +424,35 @@ impl Mw for Adapter {
         None
     }
     fn yields(&self) -> usize {
-        48
+        48 * self.wrappers.len()
     }
     fn manual(&mut self, what: &str, kv: &Kv) {
+        // the wrapper the op is for (`w=<j>`, default 0)
+        let j = kv.u64("w", 0) as usize;
+        if j >= self.wrappers.len() {
+            log("noop".into());
+            return;
+        }
+        let wr = &self.wrappers[j];
         match what {
             "start" => {
                 // `start()` again: the running periodic task is aborted, a new one spawned
-                if on_w!(self, w => now_or_pending(w.start())).is_none() {
+                if on_w!(wr, w => now_or_pending(w.start())).is_none() {
                     log("#start-pending".into());
                 }
-                log("started".into());
+                wlog(j, "started".into());
                 return;
             }
             "stop" => {
-                if on_w!(self, w => now_or_pending(w.stop())).is_none() {
+                if on_w!(wr, w => now_or_pending(w.stop())).is_none() {
                     log("#stop-pending".into());
                 }
-                log("stopped".into());
+                wlog(j, "stopped".into());
                 return;
             }
             "script" => {}
             _ => {
-                log("noop".into());
+                wlog(j, "noop".into());
                 return;
             }
         }
@@ -385,21 +460,28 @@ impl Mw for Adapter {
         let items: Option<Vec<Item>> = kv.get("seq").map(|s| s.split(',').map(parse_item).collect()).unwrap_or(None);
         match (r, items) {
             (Some(r), Some(items)) if r < self.n => {
-                self.scripts.lock().unwrap().q[r].extend(items);
+                self.scripts[j].lock().unwrap().q[r].extend(items);
             }
-            _ => log("noop".into()),
+            _ => wlog(j, "noop".into()),
         }
     }
     fn probe(&mut self, what: &str, kv: &Kv) {
+        let j = kv.u64("w", 0) as usize;
+        if j >= self.wrappers.len() {
+            log("noop".into());
+            return;
+        }
+        let wr = &self.wrappers[j];
+        let log = |s: String| wlog(j, s);
         match what {
             "status" | "details" => {
                 let Some(r) = kv.opt_u64("r") else {
                     log("noop".into());
                     return;
                 };
-                let name = format!("r{}", r);
+                let name = res_name(j, r as usize);
                 if what == "status" {
-                    let s = on_w!(self, w => now_or_pending(w.get_status(&name)));
+                    let s = on_w!(wr, w => now_or_pending(w.get_status(&name)));
                     let txt = match s {
                         None => "pending",
                         Some(None) => "none",
@@ -407,7 +489,7 @@ impl Mw for Adapter {
                     };
                     log(format!("probe status r={} = {}", r, txt));
                 } else {
-                    let d = on_w!(self, w => now_or_pending(w.get_health_details())).unwrap_or_default();
+                    let d = on_w!(wr, w => now_or_pending(w.get_health_details())).unwrap_or_default();
                     match d.iter().find(|d| d.name == name) {
                         Some(d) => log(format!(
                             "probe details r={} = {} f={} s={}",
@@ -421,22 +503,22 @@ impl Mw for Adapter {
                 }
             }
             "all" => {
-                let v = on_w!(self, w => now_or_pending(w.get_all_statuses())).unwrap_or_default();
+                let v = on_w!(wr, w => now_or_pending(w.get_all_statuses())).unwrap_or_default();
                 let txt: Vec<&str> = v.iter().map(|(_, s)| st_letter(*s)).collect();
                 log(format!("probe all = {}", if txt.is_empty() { "-".to_string() } else { txt.join(",") }));
             }
             "get_healthy" | "get_usable" => {
                 let res = if what == "get_healthy" {
-                    on_w!(self, w => now_or_pending(w.get_healthy()))
+                    on_w!(wr, w => now_or_pending(w.get_healthy()))
                 } else {
-                    on_w!(self, w => now_or_pending(w.get_usable()))
+                    on_w!(wr, w => now_or_pending(w.get_usable()))
                 };
                 if self.random {
                     obs("pick", render(res));
                 }
                 log(format!("probe {} = {}", what, render(res)));
             }
-            "config" => match &self.config {
+            "config" => match &self.configs[j] {
                 // the getters of the stand-alone config value
                 Some(c) => log(format!(
                     "probe config = iv={} delay={} to={} sth={} fth={}",
